@@ -1,9 +1,19 @@
 use std::io;
 use std::iter::{self, FusedIterator};
+#[cfg(not(attohttpc_verif))]
 use std::net::{IpAddr, TcpStream, ToSocketAddrs};
+#[cfg(not(attohttpc_verif))]
 use std::sync::mpsc::channel;
+#[cfg(not(attohttpc_verif))]
 use std::thread;
+#[cfg(not(attohttpc_verif))]
 use std::time::{Duration, Instant};
+#[cfg(attohttpc_verif)]
+use {
+    attosim::{mpsc::channel, net::TcpStream, thread, time::Instant},
+    std::net::{IpAddr, ToSocketAddrs},
+    std::time::Duration,
+};
 
 use url::Host;
 
@@ -14,6 +24,8 @@ const RACE_DELAY: Duration = Duration::from_millis(200);
 /// against each other and the first to connect successfully wins the race.
 pub fn connect(host: &Host<&str>, port: u16, timeout: Duration, deadline: Option<Instant>) -> io::Result<TcpStream> {
     let addrs: Vec<_> = match *host {
+        #[cfg(attohttpc_verif)]
+        Host::Domain(domain) => attosim::net::resolve(domain, port)?,
         Host::Domain(domain) => (domain, port).to_socket_addrs()?.collect(),
         Host::Ipv4(ip) => return TcpStream::connect_timeout(&(IpAddr::V4(ip), port).into(), timeout),
         Host::Ipv6(ip) => return TcpStream::connect_timeout(&(IpAddr::V6(ip), port).into(), timeout),
